@@ -234,6 +234,10 @@ def cmd_check(prop: str, tier: str, seed: int, workers: int) -> int:
     inconclusive = agg["runs"] < floor
     if inconclusive:
         errors.append(f"only {agg['runs']} runs completed, below the tier floor {floor}")
+    n_disc = sum(counters["discards"].values())
+    ceiling = meta.get("discard_ceiling", 0.05)
+    if agg["runs"] and n_disc / agg["runs"] > ceiling:
+        errors.append(f"discard rate {n_disc}/{agg['runs']} above the recorded ceiling {ceiling}: inconclusive")
     zero_probes = [p for p in meta.get("expected_probes", []) if counters["probes"].get(p, 0) == 0]
     ev = {
         "property_id": prop, "tier": tier, "seed": seed, "level": meta["level"],
@@ -250,7 +254,7 @@ def cmd_check(prop: str, tier: str, seed: int, workers: int) -> int:
             "fault_kinds_fired": counters["faults"],
             "probes": counters["probes"], "probes_at_zero": zero_probes,
             "clauses_evaluated": counters["clauses"],
-            "discards": counters["discards"],
+            "discards": counters["discards"], "discard_rate": round(n_disc / max(1, agg["runs"]), 4), "discard_ceiling": ceiling,
             "profiles_distinct": len(counters["profiles"]),
             "distinct_interleavings": agg["distinct_scheds"],
             "distinct_model_states": agg["distinct_states"],
